@@ -332,13 +332,17 @@ def call_outcome(shape, L, method, params):
     raise ValueError(method)
 
 
+PADS = [("\x0c", ""), ("", "\xa0"), ("\x0b", "\x0b"), ("", "\x1c"), ("\u2028", ""), ("\u3000", "\u3000"), ("\x85", ""), ("\ufeff", "")]
+BLANKS = [" ", "\r\n", "\t", "\n \n"]
+
+
 def expected_replies(shape, L, request):
     """
     Returns (list of expected reply descriptors, list of expected log entries).
     descriptor: dict(id=, kind='result'|'error', value=|code=, form=1|2|None, entry=index)
     """
     sver = float(shape.get("sver", 2.0))
-    if shape.get("parse") == "raises":
+    if shape.get("parse") in ("raises", "padded", "blank"):
         return [dict(id=None, kind="error", code=-32700, form=None, entry=None)], [], "single"
     if not request:
         return [dict(id=None, kind="error", code=-32600, form=None, entry=None)], [], "single"
@@ -453,6 +457,12 @@ def run_dispatch(shape, L, request_spec=None, dispatcher=None, registry=None, co
     if shape.get("parse") == "raises":
         run.codec.raise_on_load = EXC_TABLE[shape.get("exc", "ValueError")](L["msg"])
         text = "@body@"
+    elif shape.get("parse") == "padded":
+        # a well-formed text next to a character that is blank for str.strip() but not for RFC 8259
+        before, after = PADS[shape["pad"]]
+        text = before + run.codec.text_of(run.request) + after
+    elif shape.get("parse") == "blank":
+        text = BLANKS[shape["pad"]]
     else:
         text = run.codec.text_of(run.request)
     run.text = text
